@@ -109,12 +109,12 @@ def build_network(net):
     return nw
 
 
-def build_ev(s, np_scalars=False):
+def build_ev(s, np_scalars=False, battery=None):
     a, d, e = s["arrival"], s["departure"], s["energy"]
     if np_scalars:
         # values that come out of numpy / pandas pipelines (generate_events, DataFrames): numpy scalars instead of Python numbers
         a, d, e = sut.np.int64(a), sut.np.int64(d), sut.np.float64(e)
-    return sut.EV(a, d, e, s["station"], s["session_id"], build_battery(s["battery"]),
+    return sut.EV(a, d, e, s["station"], s["session_id"], battery if battery is not None else build_battery(s["battery"]),
                   **_kw(estimated_departure=(s.get("est_departure"), None)))
 
 
@@ -131,8 +131,16 @@ def build_events(sc, reuse_evs=None, reuse_queue=None, later=None, cuts=()):
     later/cuts: events at or after the first cut time are not loaded into the queue but appended to `later` as
     (batch index, event): the operator adds batch b after run() has returned for the b-th time (driver.run_world)."""
     evs = []
+    shared_batt = {}
     for s in sc["sessions"]:
-        ev = (reuse_evs or {}).get(s["session_id"]) or build_ev(s, np_scalars=bool(sc["sim"].get("np_scalars")))
+        batt_ = None
+        if s.get("battery_of") is not None and not reuse_evs:
+            # the same car comes twice: both EV objects are given the very same Battery object (the second visit starts from
+            # whatever state of charge the first one left)
+            if s["battery_of"] not in shared_batt:
+                shared_batt[s["battery_of"]] = build_battery(s["battery"])
+            batt_ = shared_batt[s["battery_of"]]
+        ev = (reuse_evs or {}).get(s["session_id"]) or build_ev(s, np_scalars=bool(sc["sim"].get("np_scalars")), battery=batt_)
         cls = TaggedPluginEvent if s.get("ev_sub") else sut.PluginEvent
         evs.append(cls(s["arrival"], ev))
     for e in sc["extra_events"]:
